@@ -46,6 +46,13 @@ Rot(reinit) ==
   /\ lastRot' = now
   /\ UNCHANGED <<now, enrolled, chains, lastEnr>>
 
+\* a rotation during which one storage operation on the roots record fails (table model only)
+FRot(reinit, f) ==
+  LET r == RotateF(s, now, P, reinit, nid, f) IN
+    /\ s' = r.s /\ nid' = nid + r.minted /\ lastRot' = now
+    /\ last' = [valid |-> TRUE, pre |-> s, post |-> r.s, reinit |-> reinit, now |-> now, ok |-> r.ok]
+    /\ UNCHANGED <<now, enrolled, chains, lastEnr>>
+
 Tick ==
   /\ Mode = "history"
   /\ now < T
@@ -60,12 +67,14 @@ Enroll ==
   /\ chains' = ChainsFrom(s) /\ lastEnr' = now /\ enrolled' = TRUE
   /\ UNCHANGED <<now, s, nid, lastRot, last>>
 
-Next == (Mode = "table" /\ ~last.valid /\ \E b \in BOOLEAN : Rot(b))
+Next == (Mode = "table" /\ ~last.valid /\ \E b \in BOOLEAN : (Rot(b) \/ \E f \in Faults \ {"none"} : FRot(b, f)))
         \/ (Mode = "history" /\ (Rot(FALSE) \/ Tick \/ Enroll))
 Spec == Init /\ [][Next]_vars
 
 \* C08: every successful rotation leaves what the property states
 InvC08 == (last.valid /\ last.ok) => AllowedC08At(last.pre, last.post, last.post, last.reinit, last.now, P, 0)
+\* a failed call leaves either what was stored or (reinitialisation, after the removal) nothing - never a partial record
+InvFailed == (last.valid /\ ~last.ok) => (last.post = last.pre \/ (last.reinit /\ IsEmpty(last.post)))
 \* the code-shaped decision agrees with the statement's table in every state, rotated or not
 InvDecide == \A b \in BOOLEAN : Decide(IF b THEN Empty ELSE s, now) \in TableSet(IF b THEN Empty ELSE s, now)
 \* C09
